@@ -20,6 +20,9 @@ def check(ctx: Ctx) -> str:
     newline_rules(ctx, "R1")
     comment_raw_rules(ctx, "R3")
     lstrip_rules(ctx, "R4")
+    from ..lexrules import delimiters_escaped_rule
+
+    delimiters_escaped_rule(ctx, "R6")
     # newline_sequence / keep_trailing_newline reach the text only through the Lexer built for
     # *this* environment: an overlay must not keep its parent's lexer or cached templates
     from . import c13
